@@ -59,12 +59,15 @@ def srv_token(slot, data):
 
 
 def cli_payload(tok):
-    """Payload a client sends for message token m<n> / mE<n> / mX<n>; mZ<k> / mY<k> are
-    size probes: a text / binary payload padded with k filler characters."""
+    """Payload a client sends for message token m<n> / mE<n> / mX<n>; mZ<k> / mY<k> / mU<k> are
+    size probes: a text / binary / multi-byte text payload padded with k filler characters."""
     if tok.startswith('mZ'):
         return 'c:' + tok + ':' + 'x' * int(tok[2:])
     if tok.startswith('mY'):
         return ('c:' + tok + ':' + 'x' * int(tok[2:])).encode()
+    if tok.startswith('mU'):
+        # multi-byte size probe: k two-byte characters (byte length and character count differ)
+        return 'c:' + tok + ':' + '\u00e9' * int(tok[2:])
     digits = ''.join(c for c in tok if c.isdigit())
     n = int(digits) if digits else 1
     if tok.startswith(('mE', 'mX')):
@@ -79,7 +82,7 @@ def cli_payload(tok):
 
 def cli_token(data):
     try:
-        if isinstance(data, str) and data.startswith('c:mZ'):
+        if isinstance(data, str) and data.startswith(('c:mZ', 'c:mU')):
             tok = data[2:].split(':')[0]
             if cli_payload(tok) == data:
                 return tok
